@@ -589,16 +589,33 @@ func gameTableChecks(c *caseCtx) {
 	zt := board.NewZobristTable(0)
 	n := 0
 	sizes := []uint64{64, 1024, 65536, 1 << 20}
-	for g := 0; g < c.scale(25, 500); g++ {
+	mateFENs := []string{"k7/7R/7R/8/8/8/8/7K w - - 0 1", "7k/8/5K2/6Q1/8/8/8/8 w - - 0 1", "8/8/8/8/8/2k5/8/K2R4 b - - 0 1",
+		"k7/3R4/7R/8/8/8/8/7K b - - 0 1", "6k1/5ppp/8/8/8/8/8/R5K1 w - - 0 1", "8/8/8/8/8/5k2/5q2/7K b - - 0 1"}
+	scripted := 2 * len(mateFENs)
+	for g := 0; g < scripted+c.scale(25, 500); g++ {
 		f, ok := randomSmallPosition(c)
-		if !ok || c.r.Intn(3) == 0 {
-			f = curatedFENs[1+c.r.Intn(5)]
+		if g < scripted {
+			// every mate ending, static and quiescence leaves: depth 1..4, play the PV move, again
+			f, ok = mateFENs[g/2], true
+		} else {
+			switch c.r.Intn(4) {
+			case 0:
+				f, ok = curatedFENs[1+c.r.Intn(5)], false
+			case 1:
+				// short forced mates: mate scores meet entries of other depths
+				mates := []string{"k7/7R/7R/8/8/8/8/7K w - - 0 1", "7k/8/5K2/6Q1/8/8/8/8 w - - 0 1", "8/8/8/8/8/2k5/8/K2R4 b - - 0 1",
+					"k7/3R4/7R/8/8/8/8/7K b - - 0 1", "6k1/5ppp/8/8/8/8/8/R5K1 w - - 0 1", "8/8/8/8/8/5k2/5q2/7K b - - 0 1"}
+				f, ok = mates[c.r.Intn(len(mates))], true
+			}
 		}
 		pos, turn, _, _, err := fen.Decode(f)
 		if err != nil || pos == nil {
 			continue
 		}
 		quiet := c.r.Intn(2) == 0
+		if g < scripted {
+			quiet = g%2 == 0
+		}
 		mk := func() search.Search {
 			if quiet {
 				return search.AlphaBeta{Eval: search.Quiescence{Explore: capturesOnly, Eval: search.Leaf{Eval: eval.Material{}}}}
@@ -608,21 +625,41 @@ func gameTableChecks(c *caseCtx) {
 		tt := search.NewTranspositionTable(ctx, sizes[c.r.Intn(len(sizes))])
 		b := board.NewBoard(zt, pos, turn, 0, 1)
 		var played []string
-		for ply := 0; ply < 5; ply++ {
-			d := 1 + c.r.Intn(3)
-			if ply > 0 && c.r.Intn(2) == 0 {
-				d = 2 // a typical pattern: depth d, play a move, depth d-1
+		small := ok && f != curatedFENs[1] // few men: depth 4 is affordable
+		failed := false
+		for ply := 0; ply < 5 && !failed; ply++ {
+			// iterative deepening 1..D with the shared table, as the engine does between the moves of a game:
+			// entries left by the deeper searches of the previous move meet shallower requests now
+			D := 1 + c.r.Intn(3)
+			if small && c.r.Intn(2) == 0 {
+				D = 4
 			}
-			_, withT, pvT, e1 := mk().Search(ctx, &search.Context{TT: tt}, b, d)
-			b2 := b.Fork()
-			_, without, _, e2 := mk().Search(ctx, &search.Context{TT: search.NoTranspositionTable{}}, b2, d)
-			n++
-			if e1 != nil || e2 != nil {
-				break
+			from := 1
+			if c.r.Intn(3) == 0 {
+				from = D // or one search only
 			}
-			le := func(a, b eval.Score) bool { return !b.Less(a) }
-			if !(le(withT, without) && le(without, withT)) {
-				fmt.Printf("IMPLVIOL tablegame %s moves=[%s] depth=%d q=%s :: with the shared table the search returns %s, without a table %s prop=C11 key=game-table\n", f, strings.Join(played, " "), d, b01(quiet), scoreTok(withT), scoreTok(without))
+			if g < scripted {
+				D, from = 4, 1
+			}
+			var pvT []board.Move
+			for d := from; d <= D; d++ {
+				_, withT, pv, e1 := mk().Search(ctx, &search.Context{TT: tt}, b, d)
+				pvT = pv
+				b2 := b.Fork()
+				_, without, _, e2 := mk().Search(ctx, &search.Context{TT: search.NoTranspositionTable{}}, b2, d)
+				n++
+				if e1 != nil || e2 != nil {
+					failed = true
+					break
+				}
+				le := func(a, b eval.Score) bool { return !b.Less(a) }
+				if !(le(withT, without) && le(without, withT)) {
+					fmt.Printf("IMPLVIOL tablegame %s moves=[%s] depth=%d q=%s :: with the shared table the search returns %s, without a table %s prop=C11 key=game-table\n", f, strings.Join(played, " "), d, b01(quiet), scoreTok(withT), scoreTok(without))
+					failed = true
+					break
+				}
+			}
+			if failed {
 				break
 			}
 			// play the PV move (or a random legal move) and continue with the same table
@@ -631,7 +668,7 @@ func gameTableChecks(c *caseCtx) {
 				break
 			}
 			m := ms[c.r.Intn(len(ms))]
-			if len(pvT) > 0 && c.r.Intn(2) == 0 {
+			if len(pvT) > 0 && (c.r.Intn(2) == 0 || g < scripted) {
 				for _, x := range ms {
 					if x.Equals(pvT[0]) {
 						m = x
